@@ -116,6 +116,16 @@ let rec get_member = function
 let of_gkey = function KName n -> L [A "name"; of_nat n] | KPart (n, i) -> L [A "part"; of_nat n; of_nat i] | KPlace j -> L [A "place"; of_nat j]
 let of_garg = function GKey k -> of_gkey k | GLit z -> L [A "lit"; of_nat z]
 let of_gtask = function TAlias k -> L [A "alias"; of_gkey k] | TCall (fn, args) -> L [A "call"; of_nat fn; of_list of_garg args]
+let cmp_of_idx = function 0 -> CEq | 1 -> CNe | 2 -> CLt | 3 -> CLe | 4 -> CGt | 5 -> CGe | _ -> failwith "cmp"
+let idx_of_cmp = function CEq -> 0 | CNe -> 1 | CLt -> 2 | CLe -> 3 | CGt -> 4 | CGe -> 5
+let rec get_ptree = function
+  | L [A "cmp"; c; o; v] -> PCmp { a_col = get_nat c; a_op = cmp_of_idx (get_int o); a_val = get_z v }
+  | L [A "flip"; c; o; v] -> PCmpFlip { a_col = get_nat c; a_op = cmp_of_idx (get_int o); a_val = get_z v }
+  | L [A "and"; l; r] -> PAndT (get_ptree l, get_ptree r)
+  | L [A "or"; l; r] -> POrT (get_ptree l, get_ptree r)
+  | A "other" -> POther
+  | _ -> failwith "ptree"
+let of_atom a = L [of_nat a.a_col; of_int (idx_of_cmp a.a_op); of_z a.a_val]
 (*DISPATCH-BEGIN*)
 let dispatch (fn : string) (args : sx list) : sx =
   match fn, args with
@@ -173,6 +183,7 @@ let dispatch (fn : string) (args : sx list) : sx =
   | "valid_group", [self; group; deps] ->
       L [of_bool (valid_group (get_list get_member group) (get_list (get_pair get_nat get_nat) deps));
          of_bool (self_fresh (get_nat self) (get_list get_member group))]
+  | "dnf_extract", [t] -> of_opt (of_list (of_list of_atom)) (extract (get_ptree t))
   | _ -> failwith ("unknown request " ^ fn)
 (*DISPATCH-END*)
 
